@@ -297,13 +297,17 @@ type c12Stream struct{}
 func (c12Stream) Name() string               { return "c12" }
 func (c12Stream) CaseTimeout() time.Duration { return 60 * time.Second }
 func (c12Stream) Rule() string {
-	return "Stop relative to Run: K connections (0..8; plain or TLS, leaving with a close or a TCP reset) with handlers blocked, slow (60 ms) or long-running (1.8 s) and a slow OnClose callback, clients leaving right after Stop is called; Stop before Run; two concurrent Stops and a third afterwards; clients that send requests and hang up without reading; clients that never read the large results of their searches and stay connected (after Stop each must find its socket closed); Run and Stop started together 1500 times with random head starts; and the scripted accept race (a connection accepted, Stop runs to completion, then Run continues); oracle, sampled the instant Stop has returned and Run has returned: the port refuses connections and can be bound again, no handler is running, every accepted connection has been closed and its OnClose has completed; non-trivial = at least one connection or a scripted race, distinct by scenario"
+	return "Stop relative to Run: K connections (0..8; plain or TLS, leaving with a close or a TCP reset) with handlers blocked, slow (60 ms) or long-running (1.8 s) and a slow OnClose callback, clients leaving right after Stop is called; Stop before Run; two concurrent Stops and a third afterwards; a second Stop called while the first still waits for blocked handlers (sampled at the return of the second); clients that send requests and hang up without reading; clients that never read the large results of their searches and stay connected (after Stop each must find its socket closed); Run and Stop started together 1500 times with random head starts; and the scripted accept race (a connection accepted, Stop runs to completion, then Run continues); oracle, sampled the instant Stop has returned and Run has returned: the port refuses connections and can be bound again, no handler is running, every accepted connection has been closed and its OnClose has completed; non-trivial = at least one connection or a scripted race, distinct by scenario"
 }
 
 func (c12Stream) Generate(rng *rand.Rand, n int, thorough bool) []Case {
 	var cs []Case
 	for len(cs) < n {
-		switch rng.Intn(7) {
+		switch rng.Intn(8) {
+		case 7:
+			// a second Stop called while the first is still waiting for connections whose handlers are blocked:
+			// whichever call returns, the server is quiescent at that moment
+			cs = append(cs, Case{Line: fmt.Sprintf("c12 kind=stopOverlap conns=%d inflight=blocked slowclose=%d", 1+rng.Intn(4), rng.Intn(2)), Kind: "stopOverlap"})
 		case 6:
 			// clients that never read the large results of their searches, and stay: when Stop has returned their
 			// sockets must be closed all the same (the writes to them failed)
@@ -555,6 +559,27 @@ func (c12Stream) Impl(c Case) string {
 		if _, err := cl.readFrame(5 * time.Second); err != nil {
 			return "harness-error bind response: " + err.Error()
 		}
+	}
+	if p["kind"] == "stopOverlap" {
+		first := make(chan bool, 1)
+		go func() { first <- sut.stop(10 * time.Second) }()
+		sut.tr.Wait("stop.cancelled", -1, -1, 2*time.Second)
+		time.Sleep(20 * time.Millisecond)
+		go func() { time.Sleep(300 * time.Millisecond); close(released) }()
+		// the second call, while the first is waiting for the blocked handlers
+		if !sut.stop(10 * time.Second) {
+			fail("a second Stop, called while the first was still waiting, did not return")
+		} else if waitRun() {
+			sample("a second Stop, called while the first was still waiting, returned")
+		}
+		if !<-first {
+			fail("the first of two overlapping Stop calls did not return")
+		}
+		for _, cl := range clients {
+			cl.close()
+		}
+		sut.finish()
+		return verdict + "\t" + traceString(sut.tr.Snapshot(), "conn.", "loop.", "req.", "run.", "stop.")
 	}
 	if p["kind"] == "stopTwice" {
 		var wg sync.WaitGroup
